@@ -48,6 +48,10 @@ SPEC = ["integer :: a", "integer, parameter :: n = 1", "real(kind=8), dimension(
         "type(t), dimension(3) :: u", "class(t), allocatable :: o", "procedure(f), pointer :: p", "procedure(f), pointer, nopass :: p",
         "integer, dimension(3) :: d = (/1, 2, 3/)", "implicit none", "use m2", "use m2, only: a", "private", "public :: a", "save",
         "external f", "intrinsic sin", "data a /1/", "common /c/ a", "equivalence (a, b)", "namelist /n/ a", "parameter (k = 2)",
+        "real(kind=kind(1.0d0)) :: x", "integer(kind=selected_int_kind(9)) :: i", "real(kind(1.0d0)) :: y", "character(len=len_trim(s)) :: t",
+        "character(len=*), parameter :: c = 'a''b'", "integer(8) :: big", "real*8 r8", "complex(kind=kind(1.0)) :: z", "logical(kind=4) :: l4",
+        "double precision d", "integer, dimension(:,:), pointer :: p2 => null()", "real, dimension(size(a)) :: b", "character*10 name",
+        "character(len=3, kind=1) :: ck", "real :: m(2, 2) = reshape((/1., 2., 3., 4./), (/2, 2/))",
         "dimension a(3)", "allocatable :: z", "pointer :: z", "target :: z", "optional :: z", "intent(in) :: z", "volatile z", "sequence"]
 IFACE = ["procedure f", "module procedure f", "module procedure f, g", "subroutine s(a)\ninteger a\nend subroutine s",
          "function f(x)\nreal x\nend function f"]
@@ -95,7 +99,7 @@ def main(argv):
                     if snap != ref[final]:
                         diff = [k for k in set(snap["registry"]) | set(ref[final]["registry"])
                                 if snap["registry"].get(k) != ref[final]["registry"].get(k)][:5]
-                        if len(failures) < 5:
+                        if len(failures) < 80:
                             failures.append(dict(obligation="two.parser:ParserFactory.create#registry_is_function_of_std",
                                                  witness=dict(history=list(hist), final=final),
                                                  observed=dict(differing_rules=diff, tables=snap["tables"], scope_open=snap["scope"])))
